@@ -475,8 +475,12 @@ pub fn run(args: &Args) -> Report {
 
     // 4. accuracy envelope
     let runs = if thorough { 30 } else { 1 };
-    for n in [100usize, 300, 1000, 3000, 10_000, 100_000] {
-        let runs_n = if n >= 100_000 && thorough { 6 } else { runs };
+    // (the million-element runs need ranks well above 9: a rank computation that stops after one byte saturates there)
+    for n in [100usize, 300, 1000, 3000, 10_000, 100_000, 1_000_000, 3_000_000] {
+        if n >= 1_000_000 && is_debug_build() {
+            continue; // release leg only (time)
+        }
+        let runs_n = if n >= 100_000 && thorough { 6 } else if n >= 1_000_000 { 1 } else { runs };
         for k in 0..runs_n {
             let offset = if k == 0 { 16 } else { rng.usize_below(24) };
             accuracy(&mut rng, &mut rep, n, offset);
